@@ -274,6 +274,10 @@ func ReplayMain(table map[string]func()) {
 	fmt.Printf("VERIF-REPLAY-OUTCOME %s\n", out)
 }
 
+// FreshASCII states a bound: from here on opaque crypto outputs are 7-bit bytes. It is for kernels in which the code
+// under test pushes ciphertext through []rune (UTF-8 decoding of symbolic bytes is not modelled). Native: no effect.
+func FreshASCII() {}
+
 // AllowTagsInFresh lifts the default modelling assumption that opaque crypto outputs (ciphertexts, wrapped keys,
 // generated keys) contain no envelope tag sequence (three '%' or four '"' in a row). No-op natively.
 func AllowTagsInFresh() {}
